@@ -22,7 +22,7 @@ type c30Chunk struct {
 }
 
 type c30Op struct {
-	Kind   string     `json:"k"` // message | stream | control | prepared
+	Kind   string     `json:"k"` // message | stream | control | prepared | open (NextWriter + writes, never closed)
 	Typ    int        `json:"t"`
 	Data   []byte     `json:"d,omitempty"`
 	Chunks []c30Chunk `json:"cs,omitempty"`
@@ -206,7 +206,7 @@ func c30Exec(c *Conn, op *c30Op) {
 		if err == nil {
 			err = c.WritePreparedMessage(pm)
 		}
-	case "stream":
+	case "stream", "open":
 		var w io.WriteCloser
 		w, err = c.NextWriter(op.Typ)
 		if err != nil {
@@ -226,6 +226,9 @@ func c30Exec(c *Conn, op *c30Op) {
 			if err != nil {
 				break
 			}
+		}
+		if op.Kind == "open" {
+			break // the application abandons the writer: the next NextWriter / WriteMessage closes it
 		}
 		if cerr := w.Close(); err == nil {
 			err = cerr
@@ -282,7 +285,7 @@ func c30Deflate(level int, writes [][]byte) [][]byte {
 }
 
 func c30OpData(op c30Op) (data []byte, writes [][]byte) {
-	if op.Kind == "stream" {
+	if op.Kind == "stream" || op.Kind == "open" {
 		for _, ch := range op.Chunks {
 			data = append(data, ch.Data...)
 			writes = append(writes, ch.Data)
@@ -325,7 +328,36 @@ func c30OpCoq(op c30Op) string {
 		ctor := map[string]string{"write": "CWrite", "string": "CString", "readfrom": "CReadFrom", "readfrom-eof": "CReadFromE"}[ch.Kind]
 		cs[i] = vApp(ctor, c29Term(ch.Data))
 	}
+	if op.Kind == "open" {
+		return vApp("XOpen", vN(uint64(op.Typ)), vList(cs))
+	}
 	return vApp("OpStream", vN(uint64(op.Typ)), vList(cs))
+}
+
+// c30Abandon turns some stream operations into writers the application never closes. While such a
+// writer is open only NextWriter / WriteMessage (which finish its message) and WriteControl (control
+// frames may be interleaved) are used; WritePreparedMessage with an open writer is outside the API's
+// contract ("at most one open writer").
+func c30Abandon(r *rand.Rand, ops []c30Op) {
+	open := false
+	for k := range ops {
+		op := &ops[k]
+		switch op.Kind {
+		case "stream":
+			open = false
+			if (op.Typ == 1 || op.Typ == 2) && r.Intn(2) == 0 {
+				op.Kind = "open"
+				open = true
+			}
+		case "message":
+			open = false
+		case "prepared":
+			if open {
+				op.Kind = "message"
+				open = false
+			}
+		}
+	}
 }
 
 func TestVerifC30(t *testing.T) {
@@ -354,6 +386,13 @@ func TestVerifC30(t *testing.T) {
 		{true, 4096, []c30Op{{Kind: "control", Typ: 9, Data: bytes.Repeat([]byte("c"), 125)}, {Kind: "control", Typ: 9, Data: bytes.Repeat([]byte("c"), 126)}}, "ping-125-126"},
 		{true, 4096, []c30Op{{Kind: "control", Typ: 8, Data: []byte{3, 232, 'o', 'k'}}, {Kind: "message", Typ: 2, Data: hello}}, "close-then-write"},
 		{false, 4096, []c30Op{{Kind: "message", Typ: 0, Data: hello}, {Kind: "message", Typ: 2, Data: nil}}, "bad-type-empty"},
+		{true, 4096, []c30Op{{Kind: "open", Typ: 1, Chunks: []c30Chunk{{Kind: "write", Data: hello}}}, {Kind: "message", Typ: 2, Data: []byte("next")}}, "abandoned-then-writemessage-server"},
+		{false, 4096, []c30Op{{Kind: "open", Typ: 1, Chunks: []c30Chunk{{Kind: "write", Data: hello}}}, {Kind: "message", Typ: 2, Data: []byte("next")}}, "abandoned-then-writemessage-client"},
+		{true, 16, []c30Op{{Kind: "open", Typ: 2, Chunks: []c30Chunk{{Kind: "write", Data: bytes.Repeat([]byte("f"), 40)}, {Kind: "string", Data: hello}}}, {Kind: "control", Typ: 9, Data: []byte("pi")}, {Kind: "stream", Typ: 1, Chunks: []c30Chunk{{Kind: "write", Data: hello}}}}, "abandoned-fragmented-ping-then-nextwriter"},
+		{true, 200, []c30Op{{Kind: "open", Typ: 1, Chunks: []c30Chunk{{Kind: "readfrom", Data: hello}}}, {Kind: "open", Typ: 2, Chunks: []c30Chunk{{Kind: "write", Data: hello}}}, {Kind: "message", Typ: 0, Data: hello}}, "abandoned-twice-then-bad-type"},
+		{true, 200, []c30Op{{Kind: "open", Typ: 1, Chunks: []c30Chunk{{Kind: "write", Data: hello}}}}, "abandoned-never-closed"},
+		{false, 16, []c30Op{{Kind: "stream", Typ: 1, Chunks: []c30Chunk{{Kind: "string", Data: bytes.Repeat([]byte("s"), 61)}}}}, "client-writestring-over-twice-buffer"},
+		{true, 16, []c30Op{{Kind: "stream", Typ: 1, Chunks: []c30Chunk{{Kind: "string", Data: bytes.Repeat([]byte("s"), 61)}}}}, "server-writestring-over-twice-buffer"},
 	}
 	wbsPool := []int{1, 2, 3, 16, 16, 50, 111, 125, 126, 200, 200, 4096}
 	for i := 0; i < w.N; i++ {
@@ -392,6 +431,9 @@ func TestVerifC30(t *testing.T) {
 						}
 					}
 				}
+			} else if r.Intn(3) == 0 {
+				class = "abandoned"
+				c30Abandon(r, ops)
 			}
 		}
 		if !compress {
@@ -460,7 +502,11 @@ func TestVerifC30(t *testing.T) {
 		et := make([]string, len(ops))
 		nmsg, nerr := 0, 0
 		for k, op := range ops {
-			ot[k] = vPair(vBool(op.ZOn), c30OpCoq(op))
+			if op.Kind == "open" {
+				ot[k] = c30OpCoq(op)
+			} else {
+				ot[k] = vApp("XOp", vBool(op.ZOn), c30OpCoq(op))
+			}
 			et[k] = vN(uint64(op.Err))
 			if op.Err == 0 {
 				nmsg++
